@@ -39,6 +39,7 @@ pub fn func_edit_profile() -> Profile {
 pub fn global_edit_profile() -> Profile {
     let mut p = Profile::base("global-edit");
     p.max_globals = 4;
+    p.atomics = true;
     p.max_imp_funcs = 2;
     p.ops = w(&[
         ("add_global", 5),
@@ -503,6 +504,26 @@ pub fn judge_structural(id: &str, sc: &Scenario, res: &RunResult) -> Judged {
             Ok(m) => all.extend(m),
             Err(e) => harness_error = Some(e),
         }
+        // a later encoding of the same, unedited module must satisfy the model as well
+        let last = res.tails.iter().rev().find_map(|t| match t {
+            TailOutcome::Bytes(x) => Some(x),
+            _ => None,
+        });
+        if let Some(l) = last {
+            if l != b {
+                match check_output(&res.model, l) {
+                    Ok(m) => {
+                        for mut x in m {
+                            if !all.iter().any(|y| y.sig() == x.sig()) {
+                                x.detail = format!("(in a later encoding of the unedited module) {}", x.detail);
+                                all.push(x);
+                            }
+                        }
+                    }
+                    Err(e) => harness_error = Some(e),
+                }
+            }
+        }
     } else if harness_error.is_none() {
         // no output: with dangling references a loud failure is the expected outcome
         let (df, dg, dm) = res.model.dangling();
@@ -587,7 +608,7 @@ pub fn judge_c04(sc: &Scenario, seeds: usize) -> (Judged, RunResult) {
     let mut s0 = sc.clone();
     s0.hash_seed = 0;
     let r0 = run(&s0);
-    let mut owned = vec![];
+    let mut owned: Vec<Mismatch> = vec![];
     let b0 = first_bytes(&r0).cloned();
     let p0 = panic_of(&r0).map(|p| p.sig());
     for k in 1..seeds {
@@ -608,14 +629,89 @@ pub fn judge_c04(sc: &Scenario, seeds: usize) -> (Judged, RunResult) {
             break;
         }
     }
-    (
-        Judged {
-            owned,
-            others: vec![],
-            harness_error: r0.parse_err.clone().map(|e| format!("library refused a validated base module: {e}")),
-        },
-        r0,
-    )
+    let mut harness_error = r0.parse_err.clone().map(|e| format!("library refused a validated base module: {e}"));
+    if owned.is_empty() && sc.xproc > 0 && harness_error.is_none() {
+        match xproc_outcomes(sc, sc.xproc) {
+            Err(e) => harness_error = Some(e),
+            Ok(outs) => {
+                let mine = outcome_text(&r0);
+                for (k, o) in outs.iter().enumerate() {
+                    if *o != mine {
+                        let site = match (hex_bytes(&mine), hex_bytes(o)) {
+                            (Some(x), Some(y)) => diff_site(&x, &y),
+                            _ => "outcome".into(),
+                        };
+                        owned.push(Mismatch::new(
+                            "nondeterministic_bytes",
+                            "process",
+                            format!(
+                                "execution {k} in a fresh process of the unhooked build (std RandomState) differs from the hooked seed-0 output at {site}: {} vs {}",
+                                &o[..o.len().min(48)],
+                                &mine[..mine.len().min(48)]
+                            ),
+                        ));
+                        break;
+                    }
+                }
+            }
+        }
+    }
+    (Judged { owned, others: vec![], harness_error }, r0)
+}
+
+/// One line describing what a scenario produced: `bytes <hex>` / `panic <signature>` / `none`.
+pub fn outcome_text(r: &RunResult) -> String {
+    if let Some(b) = first_bytes(r) {
+        let mut s = String::with_capacity(6 + 2 * b.len());
+        s.push_str("bytes ");
+        for x in b {
+            s.push_str(&format!("{:02x}", x));
+        }
+        s
+    } else if let Some(p) = panic_of(r) {
+        format!("panic {}", p.sig())
+    } else {
+        "none".into()
+    }
+}
+
+pub fn outcome_digest(r: &RunResult) -> u64 {
+    crate::rng::hash_str(&outcome_text(r))
+}
+
+fn hex_bytes(s: &str) -> Option<Vec<u8>> {
+    let h = s.strip_prefix("bytes ")?;
+    (0..h.len() / 2).map(|i| u8::from_str_radix(&h[2 * i..2 * i + 2], 16).ok()).collect()
+}
+
+pub fn unhooked_bin() -> String {
+    std::env::var("VERIF_UNHOOKED_BIN").ok().filter(|s| !s.is_empty()).unwrap_or_else(|| "/verif/target/unhooked/release/sim".into())
+}
+
+/// Runs the scenario in `n` fresh processes of the unhooked build (each of which executes it on
+/// three threads, i.e. under three more sets of std hash keys) and returns every outcome line.
+pub fn xproc_outcomes(sc: &Scenario, n: u32) -> Result<Vec<String>, String> {
+    let bin = unhooked_bin();
+    if !std::path::Path::new(&bin).exists() {
+        return Err(format!("unhooked simulator binary {bin} is missing (./check --build builds it)"));
+    }
+    let mut s = sc.clone();
+    s.xproc = 0;
+    let path = format!("/verif/target/tmp/xp-{}-{:?}.json", std::process::id(), std::thread::current().id()).replace(['(', ')'], "");
+    std::fs::write(&path, serde_json::to_string(&s).unwrap()).map_err(|e| format!("cannot write {path}: {e}"))?;
+    let mut outs = vec![];
+    for _ in 0..n {
+        let o = std::process::Command::new(&bin).arg("c04-one").arg(&path).output().map_err(|e| format!("cannot spawn {bin}: {e}"))?;
+        if !o.status.success() {
+            let _ = std::fs::remove_file(&path);
+            return Err(format!("unhooked c04-one exited with {:?}: {}", o.status.code(), String::from_utf8_lossy(&o.stderr)));
+        }
+        for l in String::from_utf8_lossy(&o.stdout).lines() {
+            outs.push(l.to_string());
+        }
+    }
+    let _ = std::fs::remove_file(&path);
+    Ok(outs)
 }
 
 pub fn judge(id: &str, sc: &Scenario, hash_seeds: usize) -> (Judged, RunResult, Scenario) {
